@@ -277,10 +277,13 @@ func (e *c20Env) step(i int) {
 		}
 		e.pushData(pick("dataWhich", open), vRange(vName("dataLen", i), 0, 2)+1, vBool(vName("dataEnd", i)))
 	case 5:
-		if len(closed) == 0 {
+		// RST_STREAM is written without a stream pointer: it is a control frame whether or not the
+		// stream it names is still open
+		any := append(append([]uint32{}, open...), closed...)
+		if len(any) == 0 {
 			vAssume(false)
 		}
-		e.pushRST(pick("rstWhich", closed))
+		e.pushRST(pick("rstWhich", any))
 	case 6:
 		e.pop()
 	}
